@@ -26,14 +26,13 @@ use crate::Value;
 ///
 /// The most natural way to traverse a singly linked list is probably by using
 /// the `list_iter` method.
-#[derive(PartialEq)]
 pub struct Cons {
     inner: Box<(Value, Value)>,
 }
 
-// `Clone` walks along the `cdr` chain in a loop instead of being derived, so
-// that long lists do not overflow the stack (see also the `Drop`
-// implementation below).
+// `Clone` and `PartialEq` walk along the `cdr` chain in a loop instead of
+// being derived, so that long lists do not overflow the stack (see also the
+// `Drop` implementation below).
 impl Clone for Cons {
     fn clone(&self) -> Self {
         let mut head = Cons::new(self.car().clone(), Value::Null);
@@ -50,6 +49,24 @@ impl Clone for Cons {
                     tail.set_cdr(rest.clone());
                     return head;
                 }
+            }
+        }
+    }
+}
+
+impl PartialEq for Cons {
+    fn eq(&self, other: &Cons) -> bool {
+        let (mut a, mut b) = (self, other);
+        loop {
+            if a.car() != b.car() {
+                return false;
+            }
+            match (a.cdr(), b.cdr()) {
+                (Value::Cons(a_next), Value::Cons(b_next)) => {
+                    a = a_next;
+                    b = b_next;
+                }
+                (a_rest, b_rest) => return a_rest == b_rest,
             }
         }
     }
